@@ -676,7 +676,7 @@ func returnSites(fn *ssa.Function, idx int) []retSite {
 		if idx >= len(ret.Results) {
 			continue
 		}
-		v := ret.Results[idx]
+		v := unspill(ret, idx)
 		if u, ok := v.(*ssa.UnOp); ok {
 			if al, ok := localAlloc(u); ok {
 				for _, r := range refs(al) {
